@@ -137,6 +137,66 @@ PROPS = {
         "assumptions": ["after a fault only 'no further evaluation, no repeated notification, fault returned' is required; a cancellation in the very last planned generation may return nil"],
         "expect_classes": {"protocol": ["fault:none", "fault:error", "fault:cancel", "with observer", "without observer", "parallel executor", "trial solved before the last generation", "fault after a completed trial"]},
     },
+    "C01": {
+        "run": "^TestC01",
+        "shards": 12,
+        "timeout_quick": 1200,
+        "technique": "stateful property-based testing (rapid): data-driven operator state machine over a genome pool with an innovation context (duplicate, 10 mutators, 3 crossovers, end-of-generation) with the well-formedness predicate as invariant after every action; generated population histories (3 constructors x options x fitness programs x both executors) with the predicate on every organism after every turnover",
+        "level_text": "Model-based / stateful generation: the closure property is sampled by long compositions of operators (up to 60, thorough 150 actions per history) on genomes of one lineage, the invariant (exactly the clauses of the statement incl. pointer identity of endpoints, lookup by id, ancestors' IO nodes, Genesis succeeds) evaluated after every step; "
+                      "plus spawned / random / re-read populations turned over for up to 15 (40) epochs under both executors.",
+        "level_note": "trusted: the well-formedness predicate M1 (the generators' own outputs are validated with it first); operators receive genomes without a stale phenotype, as every caller in the library does; random populations containing a gene-less genome are outside the quantifier and skipped (counted)",
+        "rule": "history: start genome G-direct (non-modular, 1-10 genes), G-opts, 1-60 actions; a step is non-trivial when a structural mutator succeeded on a genome that already had a hidden node or a disabled gene; epochs: non-trivial turnover = population with hidden nodes, disabled or recurrent genes; distinct by shape tuples",
+        "assumptions": ["trait ids consecutive, sensors carry the lowest node ids (as in every shipped genome and as add-link assumes)", "fitness finite, non-negative, <= 1e12"],
+        "expect_classes": {"history": ["succeeded:add_node", "succeeded:add_link", "succeeded:connect_sensors", "new gene inserted in the middle of the gene list (innovation reused from the record)", "new recurrent gene", "crossover with the same link under two innovation numbers", "op:mate_singlepoint", "end of generation"],
+                           "epochs": ["constructor:spawn", "constructor:random", "constructor:read", "parallel executor", "sequential executor", "turnover that grew hidden nodes", "turnover with several species"], "modular": ["modular"]},
+    },
+    "C05": {
+        "run": "^TestC05",
+        "shards": 12,
+        "technique": "stateful property-based testing (rapid): the operator state machine of C01 with an exact before/after delta oracle per mutator call (value snapshots of the genome and the boolean result)",
+        "level_text": "Model-based generation: subject genomes are pool members reached by generated operator histories; the innovation record is empty, matching (another member performed the same mutation earlier in the generation) or unrelated; "
+                      "after every mutator call the snapshot delta is compared with the documented effect.",
+        "level_note": "trusted: the snapshot (M2) and the delta relation coded from the statement; unsuccessful add-node/add-link calls and flag changes by weight/trait mutators are outside the statement: counted, not asserted",
+        "rule": "same histories as C01; a step is non-trivial when the mutator reported success (structural) or changed the genome (parametric); distinct by (mutator, result, #nodes, #genes, #disabled, #recurrent, #new genes, #changed genes)",
+        "assumptions": ["toggle-enable is checked through its end state: every node that lost an enabled outgoing gene still has one"],
+        "expect_classes": {"history": ["split of a recurrent gene", "add-node reused a recorded innovation", "add-link reused a recorded innovation", "add-link: recurrent link", "connect-sensors connected a sensor", "re-enable with several disabled genes", "toggle changed a flag", "genome with genes from a bias node"]},
+    },
+    "C02": {
+        "run": "^TestC02",
+        "shards": 12,
+        "timeout_quick": 1200,
+        "technique": "stateful property-based testing (rapid): generated population histories (constructor x options x fitness program x executor x seed) with the partition / size / id / age invariants checked after every turnover against a snapshot taken before it",
+        "level_text": "Generated epoch histories of up to 25 (60) turnovers: all fitness programs (all-zero, constant, uniform, heavy-tailed, single dominant, distinct, stagnating, sparse, genome-dependent), thresholds giving 1..PopSize species, babies stolen up to half the population, both executors; "
+                      "after each NextEpoch: no error, exact size, no organism of the old generation, species form a partition that the organisms agree with, ids unique and never reused (set of all ids seen in the history), ages per the stated rule.",
+        "level_note": "trusted: the harness's bookkeeping of which species existed before each turnover (pointer identity) and of all species ids seen; fitness finite, non-negative, <= 1e12",
+        "rule": "G-epochs scenarios, population 3-40 (120 thorough); a turnover is non-trivial when it starts with >= 2 species, can steal babies (BabiesStolen > 0 and a species older than 5) or runs the all-zero fallback; distinct by (epoch, #species, size, program, stolen, executor, #old species)",
+        "assumptions": ["mate_multipoint_avg_prob + mate_singlepoint_prob > 0 (the method is chosen with their ratio)", "random populations containing a gene-less genome are skipped (counted)"],
+        "expect_classes": {"epochs": ["species:1", "species:2-5", "species:6+", "turnover founding new species", "turnover with species extinction", "turnover where babies can be stolen", "fitness:zero", "parallel executor", "constructor:random", "constructor:read"]},
+    },
+    "C03": {
+        "run": "^TestC03",
+        "shards": 12,
+        "timeout_quick": 1200,
+        "technique": "stateful property-based testing (rapid): generated population histories with high structural-mutation rates under the sequential executor; an innovation ledger kept by the harness over the whole history is the oracle",
+        "level_text": "Generated epoch histories; after every turnover every gene and node of every organism is entered into a ledger (innovation -> endpoints+flag, node id -> role): a known number must denote the same link, unknown numbers/ids must exceed the maxima before the turnover, "
+                      "equal new links must share one number and equal splits one node id within a generation, and the innovation record must be empty afterwards.",
+        "level_note": "trusted: the ledger (two maps and two maxima); the split clause identifies a split by (source, target, flag, innovation of the carrier's split gene); parallel runs are covered by C16 for the first two clauses only",
+        "rule": "G-epochs scenarios with structural rates biased upwards, recurrent-only probability 0-0.7, small genomes (collisions of identical innovations are frequent), spawn/random/read constructors; a turnover is non-trivial when it issued new innovation numbers; distinct by (epoch, max innovation, max node id, #species, rec+non-rec pair present)",
+        "assumptions": ["sequential executor"],
+        "expect_classes": {"epochs": ["innovation shared by several organisms of one generation", "same split performed by several organisms of one generation", "recurrent and non-recurrent link on the same endpoints", "same link under different numbers in different generations", "turnover issuing new innovation numbers"]},
+    },
+    "C10": {
+        "run": "^TestC10",
+        "shards": 12,
+        "timeout_quick": 1200,
+        "technique": "stateful property-based testing (rapid): generated population histories with distinct positive fitness; the value snapshot of every species' fittest genome taken before a turnover is searched in the next generation for every species whose final quota exceeds five",
+        "level_text": "Generated epoch histories of up to 40 (80) turnovers so that champions accumulate hidden nodes and disabled genes, with and without stolen babies and with stagnating fitness (delta coding); "
+                      "oracle: existence of a genetically identical genome (every field of the snapshot except the id) in the new generation.",
+        "level_note": "trusted: snapshot equality M2; the quota is read from the old species object after the turnover (its final value including stolen babies and delta coding)",
+        "rule": "G-epochs scenarios with the 'distinct' and 'stagnating' fitness programs, population 6-40 (100), sequential executor; non-trivial = species with quota > 5 whose champion carries a disabled gene; distinct by (epoch, species id, quota, #genes, #disabled, #recurrent)",
+        "assumptions": ["fitness values distinct and positive, so the fittest organism of a species is unique"],
+        "expect_classes": {"epochs": ["species with quota > 5", "quota exactly 6", "champion with disabled genes", "champion with recurrent genes", "quota set by delta coding", "babies stolen configured"]},
+    },
 }
 
 # properties that the technique can not decide (none): id -> reason
